@@ -18,6 +18,7 @@ func runC16(c *Ctx) {
 	ruleEntry(c, a)
 	// "a status naming its outcome": the stages run in order — decrypt, then parse/validate, then send — so the first failing stage names the status
 	ruleSendGuard(c, a, "STAGES")
+	ruleVerdictKept(c, a, "STAGES")
 	ruleBufSize(c, a, "BUFSIZE") // "its wire size": a datagram cut short by a small buffer is reported with the wrong size
 	ruleClientReport(c, a)
 	ruleTargetReport(c, a)
@@ -504,4 +505,101 @@ func ruleDirWiring(c *Ctx, rule string) {
 			}
 		}
 	}
+}
+
+// ruleVerdictKept (C16.STAGES): a destination the validator rejects is reported with the validator's own status when its
+// error carries one — the failure edge of every validator call returns the error through a status-preserving conversion
+// (errors.As into a *ConnectionError, or a helper built on it), not a new error with a fixed status that keeps the
+// validator's verdict only as a cause. Otherwise a datagram to a private address on a live association is counted under
+// a status that names another outcome.
+func ruleVerdictKept(c *Ctx, a *udpAnchors, rule string) {
+	p := c.P
+	// status-preserving helpers: take an error, apply errors.As(err, &x) with x a *ConnectionError, and return x
+	preserving := map[*ssa.Function]int{}
+	for _, f := range p.Fns {
+		if p.IsTestSupport(f) || f.Signature.Results().Len() != 1 || eng.TypeName(f.Signature.Results().At(0).Type()) != "net.ConnectionError" {
+			continue
+		}
+		for _, cl := range eng.Calls(f) {
+			call, ok := cl.(*ssa.Call)
+			if !ok || eng.CalleeName(&call.Call) != "errors.As" {
+				continue
+			}
+			for i, pa := range f.Params {
+				if p.AnyFrom(call.Call.Args[0], eng.OriginOpts{ThroughConvert: true}, func(v ssa.Value) bool { return v == ssa.Value(pa) }) {
+					cell := eng.CellRoot(call.Call.Args[1])
+					if cell == nil {
+						// &x converted to any: look through the MakeInterface
+						if mi, ok := call.Call.Args[1].(*ssa.MakeInterface); ok {
+							cell = eng.CellRoot(mi.X)
+						}
+					}
+					for _, r := range eng.Returns(f) {
+						if len(r.Results) == 1 && cell != nil && p.AnyFrom(r.Results[0], eng.OriginOpts{}, func(v ssa.Value) bool {
+							u, ok := v.(*ssa.UnOp)
+							return ok && eng.CellRoot(u.X) == cell
+						}) {
+							preserving[f] = i
+						}
+					}
+				}
+			}
+		}
+	}
+	n := 0
+	for _, v := range a.vals {
+		f := v.Parent()
+		ei := errorResultIndex(v.Call.Signature())
+		if ei < 0 {
+			continue
+		}
+		_, fail := p.SuccessEdges(f, []ssa.CallInstruction{v}, ei)
+		var verr ssa.Value = v
+		if v.Call.Signature().Results().Len() > 1 {
+			for _, r := range *v.Referrers() {
+				if ex, ok := r.(*ssa.Extract); ok && ex.Index == ei {
+					verr = ex
+				}
+			}
+		}
+		for _, e := range sortedEdges(fail) {
+			reach := eng.ReachBlocks(e.To, nil)
+			for _, r := range eng.Returns(f) {
+				if !reach[r.Block()] || len(e.To.Preds) != 1 {
+					continue
+				}
+				for i, res := range r.Results {
+					if eng.TypeName(res.Type()) != "net.ConnectionError" {
+						continue
+					}
+					rv := res
+					if s := p.ReachingStore(rv, r); s != nil {
+						rv = s
+					}
+					// only returns that belong to this failure (dominated by the failure edge)
+					if !eng.Cut(f, r.Block(), eng.EdgeSet{e: true}) {
+						continue
+					}
+					n++
+					good, bad := p.AllFrom(rv, eng.OriginOpts{ThroughConvert: true}, func(x ssa.Value) bool {
+						if x == verr {
+							return true
+						}
+						cc, ok := x.(*ssa.Call)
+						if !ok {
+							return false
+						}
+						h := cc.Call.StaticCallee()
+						idx, isP := preserving[h]
+						if !isP || idx >= len(cc.Call.Args) {
+							return false
+						}
+						return p.AnyFrom(cc.Call.Args[idx], eng.OriginOpts{ThroughConvert: true}, func(y ssa.Value) bool { return y == verr })
+					})
+					c.CheckAt(rule, fmt.Sprintf("%s:validator-verdict-keeps-its-status#%d", short(f), i), r, good, "a destination rejected by the validator is reported with a status chosen here, not with the status the validator's error carries ("+valsStr(p, bad)+"): the datagram is counted under a status that names another outcome")
+				}
+			}
+		}
+	}
+	c.Floor(rule, "returns on the validator's failure edge", n, 1)
 }
